@@ -119,8 +119,9 @@ Section Snd.
       intros d ->. split_if; [exact I|].
       apply hoarec_lift. eapply hoare_weaken; [apply increment_offset_spec; unfold pinv; cbn; lia|].
       cbv beta. intros s' [-> Hl]. cbn [ps_off ps_set_off ps_edns_end] in *.
-      apply check_compressed_name_iff in Hf. destruct Hf as [Hfa Hfb].
-      repeat split; try lia. replace (ps_off s + 10 + rdlen) with f by lia. exact Hfb. }
+      apply check_compressed_name_iff in Hf.
+      split; [lia|]. split; [lia|]. split; [reflexivity|]. split; [lia|].
+      replace (ps_off s + 10 + rdlen) with f by lia. exact Hf. }
     destruct (t =? TYPE_MX)%N eqn:Emx.
     { split_if; [exact I|].
       eapply hoarec_bind; [apply hoarec_lift, increment_offset_spec; exact H1|].
@@ -133,8 +134,9 @@ Section Snd.
       intros d ->. split_if; [exact I|].
       apply hoarec_lift. eapply hoare_weaken; [apply increment_offset_spec; unfold pinv; cbn; lia|].
       cbv beta. intros s' [-> Hl]. cbn [ps_off ps_set_off ps_edns_end] in *.
-      apply check_compressed_name_iff in Hf. destruct Hf as [Hfa Hfb].
-      repeat split; try lia. replace (ps_off s + 10 + rdlen) with f by lia. exact Hfb. }
+      apply check_compressed_name_iff in Hf.
+      split; [lia|]. split; [lia|]. split; [reflexivity|]. split; [lia|].
+      replace (ps_off s + 10 + rdlen) with f by lia. exact Hf. }
     destruct (t =? TYPE_SOA)%N eqn:Esoa.
     { split_if; [exact I|].
       eapply hoarec_bind; [apply hoarec_lift, increment_offset_spec; exact H1|].
@@ -168,8 +170,9 @@ Section Snd.
       intros d ->. split_if; [exact I|].
       apply hoarec_lift. eapply hoare_weaken; [apply increment_offset_spec; unfold pinv; cbn; lia|].
       cbv beta. intros s' [-> Hl]. cbn [ps_off ps_set_off ps_edns_end] in *.
-      apply check_uncompressed_name_iff in Hf. destruct Hf as [Hfa Hfb].
-      repeat split; try lia. replace (ps_off s + 10 + rdlen) with f by lia. exact Hfb. }
+      apply check_uncompressed_name_iff in Hf.
+      split; [lia|]. split; [lia|]. split; [reflexivity|]. split; [lia|].
+      replace (ps_off s + 10 + rdlen) with f by lia. exact Hf. }
     destruct (t =? TYPE_A)%N eqn:Ea.
     { split_if; [exact I|].
       apply hoarec_lift. eapply hoare_weaken; [apply increment_offset_spec; exact H1|].
@@ -299,7 +302,6 @@ Proof.
   apply be16_at_u16 in Hw, Hqd, Han, Hns, Har.
   exists w, an, ns, ar, qe, CLASS_IN, (ps_off s2), (seen_of s2), (ps_off s3), (seen_of s3), (seen_of s4).
   repeat split; auto.
-  - apply Hqn.
   - unfold word_is_response in *. destruct (N.land w 32768 =? 32768)%N eqn:E; [lia|]. cbn [negb andb] in Ean. lia.
   - unfold word_is_response in *. destruct (N.land w 32768 =? 32768)%N eqn:E; [lia|]. cbn [negb andb] in Ens. lia.
 Qed.
